@@ -26,7 +26,7 @@ FLOORS = {"quick": {"departures_checked": 30000, "waited_for_tokens": 5000, "cap
                        "oversize_packets": 10000, "pair_inequalities": 4000000, "peak_spacings": 100000,
                        "colours_checked": 200000, "red": 20000, "yellow": 20000, "green": 20000,
                        "green_pairs": 1000000, "must_be_green": 6000, "zero_peak_bucket_heads": 1000}}
-KEYS = tuple(FLOORS["quick"].keys()) + ("tb_cases", "trtb_cases", "exact_cases", "float_cases", "fast_cases", "precoloured_packets", "same_object_again", "debug_tracing_cases", "zero_size_packets")
+KEYS = tuple(FLOORS["quick"].keys()) + ("tb_cases", "trtb_cases", "exact_cases", "float_cases", "fast_cases", "precoloured_packets", "same_object_again", "debug_tracing_cases", "zero_size_packets", "phased_cases", "parameter_reassignments")
 # floors for the situations added with the later rounds of seeded changes (evidence that they were really exercised)
 FLOORS["quick"].update({'same_object_again': 2500})
 FLOORS["thorough"].update({'same_object_again': 12500})
@@ -43,6 +43,8 @@ def ncases(tier):
 
 
 def gen_case(rng, i):
+    if i % 10 == 7:
+        return gen_phased(rng)
     flavour = "exact" if rng.random() < 0.65 else "float"
     two = rng.random() < 0.5
     fast = (not two) and rng.random() < 0.12
@@ -282,10 +284,122 @@ def run_case(case, stats):
     return viol
 
 
+def gen_phased(rng):
+    """the public parameters (rate, bucket sizes) are reassigned while the simulation runs, during an idle period long
+    enough to fill every bucket under the old and the new values; the second phase is shaped by the new values"""
+    two = rng.random() < 0.5
+    rate = rng.choice([8192, 4096, 16384])
+    sizes = rng.choice([[128], [64, 256], [128, 512, 1024]])
+    B = rng.choice([max(sizes), 2 * max(sizes), 4 * max(sizes)])
+    case = {"kind": "phased", "two": two, "flavour": "exact", "phases": []}
+    for ph in (0, 1):
+        r = rate if ph == 0 else rng.choice([rate, rate * 2, rate // 2, rate * 4])
+        b = B if ph == 0 else rng.choice([B, max(sizes), 2 * B, max(1, B // 2)])
+        arr = vnet.gen_arrivals(rng, 2, "exact", rng.randint(3, 25), sizes, None, burst_p=0.6)
+        d = {"rate": r, "bucket": b, "arrivals": arr}
+        if two:
+            d["pir"] = rng.choice([None, None, r * 2]) if ph == 0 else None
+            d["pbs"] = None
+        case["phases"].append(d)
+    if two:
+        pir = case["phases"][0]["pir"]
+        for ph, d in enumerate(case["phases"]):
+            d["pir"] = pir
+            d["pbs"] = None if pir is None else rng.choice([d["bucket"], 2 * d["bucket"], max(sizes)])
+    return case
+
+
+def run_phased(case, stats):
+    from onl.netdev import TokenBucket, TwoRateTokenBucket
+    viol = []
+
+    def bad(m, what, wit=None):
+        if len(viol) < 4:
+            viol.append((m, what, wit))
+    net = vnet.Net()
+    env = net.env
+    p0, p1 = case["phases"]
+    if case["two"]:
+        el = TwoRateTokenBucket(env, p0["rate"], p0["bucket"], p0["pir"], p0["pbs"])
+    else:
+        el = TokenBucket(env, p0["rate"], p0["bucket"])
+    sink = net.recorder("sink")
+    el.out = sink
+    net.tap_put(el, "tb")
+    cols = []
+    oput = sink.put
+
+    def sput(p):
+        cols.append(p.color)
+        oput(p)
+    sink.put = sput
+    caps = [d["bucket"] for d in (p0, p1)] + [d["pbs"] for d in (p0, p1) if d.get("pbs")]
+    rates = [d["rate"] for d in (p0, p1)]
+    fill = max(caps) * 8.0 / min(rates)
+    end0 = max(a["t"] for a in p0["arrivals"]) + sum(a["size"] for a in p0["arrivals"]) * 8.0 / min(rates) + 1
+    t_change = end0 + fill + 1
+    t_start1 = t_change + fill + 1
+    arr = [dict(a, drv=0) for a in p0["arrivals"]] + [dict(a, t=a["t"] + t_start1, drv=0) for a in p1["arrivals"]]
+    net.driver(el, arr)
+
+    def reconfigure():
+        yield env.timeout(t_change)
+        if case["two"]:
+            el.cir, el.cbs = p1["rate"], p1["bucket"]
+            if p1["pir"]:
+                el.pbs = p1["pbs"]
+        else:
+            el.rate, el.bucket_size = p1["rate"], p1["bucket"]
+        stats["parameter_reassignments"] += 1
+    env.process(reconfigure())
+    err = net.run()
+    if err:
+        bad(err, "the run raised", net.errors[-1] if net.errors else err)
+        return viol
+    stats["phased_cases"] += 1
+    ins = net.tape.of("tb", "in")
+    outs = net.tape.of("sink", "out")
+    if [e[5] for e in ins] != [e[5] for e in outs]:
+        bad("lost-or-reordered", "the shaper did not release every packet exactly once in FIFO order", None)
+        return viol
+    n0 = len(p0["arrivals"])
+    k = 0
+    for ph, (d, part) in enumerate(((p0, ins[:n0]), (p1, ins[n0:]))):
+        if case["two"] and d["pir"]:
+            rate, B = d["pir"], d["pbs"]
+        else:
+            rate, B = d["rate"], d["bucket"]
+        base = part[0][2] if ph == 1 and part else 0.0
+        heads = [(e[2] - (t_start1 if ph == 1 else 0), e[6], (lambda sz: 0.0)) for e in part]
+        ref = shaper_reference(heads, rate, B)
+        for j, (h, s, at_head, waited, fin) in enumerate(ref):
+            D = outs[k][2] - (t_start1 if ph == 1 else 0)
+            stats["departures_checked"] += 1
+            if D != fin:
+                bad("released-early[after-parameter-change]" if D < fin else "released-late[after-parameter-change]" if ph == 1 else
+                    ("released-early" if D < fin else "released-late") + ("[trtb]" if case["two"] else "[tb]"),
+                    "a packet was not released at the earliest instant at which the bucket (with the parameters in force) covers it",
+                    {"phase": ph, "k": j, "expected": fin, "got": D, "rate": rate, "bucket": B, "size": part[j][6]})
+                return viol
+            if case["two"]:
+                c = cols[k]
+                want_red = bool(d["pir"]) and waited
+                if d["pir"] and (c == "red") != want_red:
+                    bad("red-colour-wrong" + ("[after-parameter-change]" if ph == 1 else ""), "red must mark exactly the packets that had to wait for peak tokens",
+                        {"phase": ph, "k": j, "colour": c, "waited": waited})
+                    return viol
+                if not d["pir"] and c != ("yellow" if waited else "green"):
+                    bad("single-bucket-colour-wrong" + ("[after-parameter-change]" if ph == 1 else ""), "without PIR a packet is green iff the committed bucket covered it, else yellow",
+                        {"phase": ph, "k": j, "colour": c, "waited": waited})
+                    return viol
+            k += 1
+    return viol
+
+
 def one_case(ctx, case):
     import collections
     stats = collections.Counter({k: 0 for k in KEYS})
-    viol = run_case(case, stats)
+    viol = run_phased(case, stats) if case.get("kind") == "phased" else run_case(case, stats)
     for k in KEYS:
         ctx.count(k, stats[k])
     return viol, stats["waited_for_tokens"] >= 1 and stats["cap_hit_after_idle"] >= 1
